@@ -48,6 +48,14 @@ const cstl_STRING_char_t * STRF(str, const struct cstl_STRING * const s)
 /*! @private */
 static void STRF(__resize, struct cstl_STRING * const s, const size_t n)
 {
+    if (n == SIZE_MAX) {
+        /*
+         * there is no room for the terminator; like a failure
+         * to allocate memory, this cannot be satisfied
+         */
+        abort();
+    }
+
     cstl_vector_resize(&s->v, n + 1);
     *STRF(__at, s, n) = STRV(nul);
 }
@@ -72,6 +80,10 @@ static void STRF(prep_insert,
 
     if (len > 0) {
         const size_t size = STRF(size, s);
+        if (len > SIZE_MAX - size) {
+            /* the resulting length cannot be represented */
+            abort();
+        }
         STRF(__resize, s, size + len);
         memmove(STRF(__at, s, pos + len),
                 STRF(__at, s, pos),
